@@ -41,7 +41,7 @@ def plan(tier, seed, batch):
     if tier == "quick":
         if batch > 0:
             return []
-        n = 150
+        n = 105
     else:
         n = 600
     return [{"index": batch * 100000 + i, "seed": seed, "tier": tier} for i in range(n)]
@@ -93,6 +93,8 @@ def build(spec):
         flags.append("-push0")
     solver = ro.choice(["z3", "z3", "z3", "oms"])
     flags += ["-solver", solver] + O.encoder_flags(ro, allow_push_basic=False, p=0.3)
+    if i % 25 == 7:
+        flags.append("-push-basic")        # rarely: the whole option is a recorded finding (see known_findings.json)
     conflict = i % 3 == 1          # every third task: ordering-constraint bait, half of it with the position bounds disabled
     if conflict and i % 2 == 1 and "-order-bounds" not in flags:
         flags.append("-order-bounds")
@@ -169,6 +171,9 @@ def task(spec):
         summ["probes"]["run_" + st] = 1
         return dict(summ, violations=[])
     viols = evaluate(op, recs, summ)
+    if "-push-basic" in op["argv"]:
+        for v in viols:
+            v["class"] = ["push-basic"] + v["class"][:2]
     seen = set()
     out = []
     for v in viols:
@@ -186,4 +191,6 @@ def replay(rp):
         return None
     summ = {"evals": 0, "keys": [], "probes": {}, "samples": []}
     v = evaluate(op, recs, summ)
+    if v and "-push-basic" in op["argv"]:
+        v[0]["class"] = ["push-basic"] + v[0]["class"][:2]
     return v[0] if v else None
